@@ -345,7 +345,7 @@ package keeper
 //@ pred cvaSane(a) = $accStart[a] <= $accEnd[a] && (forall d: str :: {$accOV[a][d]} {$accDV[a][d]} 0 <= $accOV[a][d] && $accOV[a][d] <= E30() && 0 <= $accDV[a][d] && $accDV[a][d] <= E30())
 //@ spec func E30() int = 1000000000000000000000000000000
 //@ func (k Keeper) UnlockUnbondedContinuousVestingAccountCoins(ctx, ownerAddress, amountToUnlock) (acc, err)
-//@   panic_requires cvaSane(ownerAddress) && timeOK($blockTime) && validDenomsOf(amountToUnlock)
+//@   panic_requires cvaSane(ownerAddress) && timeOK($blockTime)
 //@   // the schedule and split arithmetic is used through the lemmas below only: truncated division stays uninterpreted here
 //@   opaque tquo
 //@   uses forall d: str :: {$accOV[ownerAddress][d]} vestedBounds($accOV[ownerAddress][d], $accStart[ownerAddress], $accEnd[ownerAddress], fdiv($blockTime, 1000000000))
@@ -363,7 +363,7 @@ package keeper
 //@   ensures [formula] err == nil ==> (forall d: str :: {$accOV[ownerAddress][d]} amountToUnlock[d] == 0 ==> $accOV[ownerAddress][d] == old($accOV[ownerAddress][d]))
 //@     && (forall k: int :: {denomAt(amountToUnlock, k)} 0 <= k && k < len(amountToUnlock) && amountToUnlock[denomAt(amountToUnlock, k)] > 0 ==>
 //@          unlockedBy(ownerAddress, denomAt(amountToUnlock, k), amountToUnlock[denomAt(amountToUnlock, k)], $accOV[ownerAddress][denomAt(amountToUnlock, k)]))
-//@   prop C09 C07 C20x
+//@   prop C09 C07 C20
 //@ // vesting amount of denomination d of the stored account a before the call
 //@ pred vesting0(a, d) = old($accOV[a][d]) - cvaVested(old($accOV[a][d]), old($accStart[a]), old($accEnd[a]), fdiv($blockTime, 1000000000))
 //@ pred unlockedBy(a, d, u, ovNew) = ovNew == old($accOV[a][d]) - unlockDiff(u, old($accOV[a][d]), vesting0(a, d))
@@ -407,7 +407,8 @@ package keeper
 //@   ensures [lineage-derived] err == nil && old($trFound[toBech32(from)]) && toBech32(from) != toBech32(toAddress) ==> genesisDerived(toBech32(toAddress)) == old(genesisDerived(toBech32(from)))
 //@   ensures [lineage-untraced] err != nil || !old($trFound[toBech32(from)]) ==> tracesUnchanged()
 //@   ensures [lineage-frame] tracesUnchangedExcept(toBech32(toAddress))
-//@   prop C09 C07 C17 C20x
+//@   panic_requires cvaSane(from) && timeOK($blockTime)
+//@   prop C09 C07 C17 C20
 
 //@ // ---- C05: the locked sum of an owner, and how the three operations change it ----
 //@ spec func sumLocked(il [int]int, s [int]int, w [int]int, n int) int = n <= 0 ? 0 : sumLocked(il, s, w, n - 1) + il[n - 1] - s[n - 1] - w[n - 1]
@@ -573,18 +574,20 @@ package keeper
 //@   requires msg != nil && poolsSane(msg.Owner)
 //@   prop C20
 //@ func (k msgServer) MoveAvailableVesting(goCtx, msg) (r0, r1)
-//@   requires msg != nil
-//@   prop C20x
+//@   requires msg != nil && cvaSane(fromBech32(msg.FromAddress)) && timeOK($blockTime)
+//@   prop C20 C07
 //@ func (k msgServer) MoveAvailableVestingByDenoms(goCtx, msg) (r0, r1)
-//@   requires msg != nil
-//@   prop C20x
+//@   requires msg != nil && cvaSane(fromBech32(msg.FromAddress)) && timeOK($blockTime)
+//@   // ValidateBasic accepted the message (since the denom fix it checks every denomination)
+//@   requires forall i: int :: {msg.Denoms[i]} 0 <= i && i < len(msg.Denoms) ==> validDenom(msg.Denoms[i])
+//@   prop C20 C07
 //@ func (k msgServer) SendToVestingAccount(goCtx, msg) (r0, r1)
 //@   requires msg != nil && poolsSane(msg.Owner) && $pLen[msg.Owner] <= 1000000 && poolTimesSane(msg.Owner) && vestingTypesSane()
 //@   requires timeOK($blockTime) && $blockTime >= -1000000000000000000 && $blockTime <= 1000000000000000000 && (!msg.Amount.IsNil() ==> abs(msg.Amount) <= 1e60)
 //@   prop C20
 //@ func (k msgServer) SplitVesting(goCtx, msg) (r0, r1)
-//@   requires msg != nil
-//@   prop C20x
+//@   requires msg != nil && cvaSane(fromBech32(msg.FromAddress)) && timeOK($blockTime)
+//@   prop C20 C07
 //@ func (k msgServer) WithdrawAllAvailable(goCtx, msg) (r0, r1)
 //@   requires msg != nil && poolsSane(msg.Owner) && $pLen[msg.Owner] <= 1000000
 //@   prop C20
